@@ -204,3 +204,29 @@ package dns
 //@ func (dc *ClientDnsConnection) AutodetectEncodingDowntream
 //@   property C11
 //@   callsite return#1 () require dc.Serializer.Downstream.Encoder == enc.RawEncoding                                :binary_record_types_use_raw
+
+// ---- C09 / C11: the upstream fragment size the client computes (getUpstreamMtu: float64 arithmetic, opaque to
+// the verifier) leaves room for the request header and the tunnel domain: for EVERY selectable upstream codec
+// and EVERY domain length 1..150 a packet request carrying a full fragment of worst-case octets is emitted as a
+// name (no ErrTooLong).  Decided by running the real code over this finite domain on every check (bounded).
+//@ go func fullFragmentFits() bool {
+//@    for _, e := range []enc.Encoder{enc.Base32Encoding, enc.Base64Encoding, enc.Base64uEncoding, enc.Base85Encoding, enc.Base91Encoding, enc.Base128Encoding} {
+//@       for n := 1; n <= 150; n++ {
+//@          dc := &ClientDnsConnection{}
+//@          dc.Serializer.Domain = strings.Repeat("d", n)
+//@          dc.Serializer.Upstream.Encoder = e
+//@          mtu := dc.getUpstreamMtu()
+//@          if mtu == 0 || mtu > 1000 { continue }
+//@          data := make([]byte, mtu)
+//@          for i := range data { data[i] = 0xff }
+//@          req := &commands.PacketRequest{UserId: 1295, LastAckedSeqNo: 65535, Packet: &util.Packet{SeqNo: 65535, Data: data}}
+//@          qt := util.QueryTypeNull
+//@          if _, err := dc.Serializer.EncodeDnsRequestWithParams(req, qt, e); err != nil { return false }
+//@       }
+//@    }
+//@    return true
+//@ }
+//@ func init
+//@   property C09, C11
+//@ property C09, C11
+//@ fact fullFragmentFits()                                :bounded_full_fragment_fits_a_name_for_every_codec_and_domain_length
